@@ -49,7 +49,12 @@ def gen(rng, tier):
                 if h and h["sh_type"] in (2, 11, 6) and rng.random() < 0.7:
                     r = rng.random()
                     lk = h["sh_link"]
-                    if r < 0.4:
+                    if r < 0.15:           # exactly SHN_XINDEX / a reserved index, with shdr[0].sh_link naming a string table
+                        data = elfgen.patch(data, meta, "shdr", "sh_link", rng.choice([0xffff, 0xffff, 0xff00]), k)
+                        st = [i for i, x in enumerate(hs) if x and x["sh_type"] == 3]
+                        if st:
+                            data = elfgen.patch(data, meta, "shdr", "sh_link", rng.choice(st), 0)
+                    elif r < 0.4:
                         data = elfgen.patch(data, meta, "shdr", "sh_link", rng.randrange(0, meta["nsh"] + 1), k)
                     elif r < 0.7 and lk < len(hs) and hs[lk]:
                         data = elfgen.patch(data, meta, "shdr", "sh_type", 8, lk)
@@ -59,9 +64,30 @@ def gen(rng, tier):
             for k, h in enumerate(hs):
                 if h and h["sh_type"] in (5, 0x6ffffff6):
                     data = elfgen.patch(data, meta, "shdr", "sh_size", rng.choice([0, 4, 7] if h["sh_type"] == 5 else [0, 8, 15]), k)
+        dupq = []
+        if hs and len(hs) >= 3 and rng.random() < 0.3:
+            # the same name string read from two different offsets of the name table (a tail of a longer name, a second
+            # copy), header order opposite to string-table order: by-name must still return the first HEADER
+            o1 = fileq.py_open("any", data)
+            h1 = fileq.py_shdrs(o1, data) if o1 else None
+            sx = o1["eh"]["e_shstrndx"] if o1 else 0
+            if h1 and 0 < sx < len(h1) and h1[sx] and h1[sx]["sh_offset"] + h1[sx]["sh_size"] <= len(data):
+                tab = data[h1[sx]["sh_offset"]:h1[sx]["sh_offset"] + h1[sx]["sh_size"]]
+                occ = {}
+                for off in range(len(tab)):
+                    z = tab.find(b"\0", off)
+                    if z > off:
+                        occ.setdefault(tab[off:z], []).append(off)
+                multi = [(nm, offs) for nm, offs in occ.items() if len(offs) >= 2 and len(nm) >= 2]
+                if multi:
+                    nm, offs = rng.choice(multi)
+                    i, j = sorted(rng.sample(range(1, len(h1)), 2))
+                    data = elfgen.patch(data, meta, "shdr", "sh_name", max(offs), i)
+                    data = elfgen.patch(data, meta, "shdr", "sh_name", min(offs), j)
+                    dupq = [nm]
         fam = filegen.fam_for(rng, meta["little"])
-        names = [s["name"] for s in e.sections] + [b".shstrtab"]
-        qn = list(dict.fromkeys(rng.sample(names, min(len(names), 4)) + [b".text", b".tex", b".text.h", b"absent", b"", b".symtab", b".gnu.hash"]))
+        names = [s["name"] for s in e.sections] + [b".shstrtab"] + dupq
+        qn = list(dict.fromkeys(dupq + rng.sample(names, min(len(names), 4)) + [b".text", b".tex", b".text.h", b"absent", b"", b".symtab", b".gnu.hash"]))
         def utf8(b):
             try:
                 b.decode("utf-8")
